@@ -136,7 +136,7 @@ class Extractor:
                 raise vf.Undecided("V4: loop#%d of %s is not a for loop" % (k, fname))
             pat, expr = m.group(1), m.group(2)
             inner = out[bo + 1:bc]
-            new = "let mut it_%d = %s; loop /*V4#%d*/ { match it_%d.next() { None => { /*V4none#%d*/ break; } Some(%s) => {%s} } }" % (k, expr, k, k, k, pat, inner)
+            new = "let mut it_%d = %s; loop /*V4#%d*/ { match it_%d.next() { None => { /*V4none#%d*/ break; } Some(%s) => { /*V4some#%d*/ %s /*V4end#%d*/ } } }" % (k, expr, k, k, k, pat, k, inner, k)
             self.log.append({"rule": "V4", "fn": fname, "loop": k, "before": " ".join(head.split()), "after": "let mut it_%d = %s; loop { match it_%d.next() { None => break, Some(%s) => {..body unchanged..} } }" % (k, expr, k, pat)})
             out = out[:kw] + new + out[bc + 1:]
         return out
@@ -189,7 +189,18 @@ class Extractor:
 
     def do_fn(self, d, sub, impl_ctx):
         fname = d["name"]
-        if impl_ctx:
+        if d.get("trait"):
+            text = self.src(d["file"])
+            mask = rs.code_mask(text)
+            mt = None
+            for m_ in rs.find_code(text, mask, r"(?m)^\s*(pub(\([^)]*\))?\s+)?trait\s+" + re.escape(d["trait"]) + r"\b"):
+                mt = m_
+                break
+            if not mt:
+                raise vf.Undecided("lost anchor: trait %s in %s" % (d["trait"], d["file"]))
+            lo = text.find("{", mt.end())
+            hi = rs.match_brace(text, mask, lo)
+        elif impl_ctx:
             text, lo, hi = impl_ctx
         else:
             text = self.src(d["file"])
@@ -276,7 +287,11 @@ class Extractor:
             k = len(blines) - 1
             while k >= 0 and not blines[k].strip():
                 k -= 1
-            blines[k:k] = tails
+            if blines[k].strip() in ("}", "};"):
+                # the body ends with a block statement, not a tail expression: append after it
+                blines[k + 1:k + 1] = tails
+            else:
+                blines[k:k] = tails
             body = "\n".join(blines) + "\n"
         out = "%s %s\n%s\n{\n%s\n%s}\n" % (qual, sig, "\n".join("    " + c for c in contract), "\n".join(entry), body)
         if d.get("ob"):
@@ -365,7 +380,7 @@ class Extractor:
                     elif s2 and not s2.startswith("//"):
                         raise vf.Undecided("unit file %s: unparsable line inside //@fn: %s" % (self.path.name, s2))
                     i += 1
-                out.append(self.do_fn(d, sub, impl_ctx if not d.get("file") else None))
+                out.append(self.do_fn(d, sub, impl_ctx if not (d.get("file") or d.get("trait")) else None))
             elif cmd == "ob":
                 d = parse_kv(rest)
                 self.obs.append({"name": d["name"], "id": d.get("id", d["name"]), "kind": d.get("kind", "lemma"), "fn": d.get("fn", "spec"), "desc": d.get("desc", ""), "bound": ""})
